@@ -97,12 +97,11 @@ static htp_status_t htp_connp_req_receiver_send_data(htp_connp_t *connp, int is_
     d.len = connp->in_current_read_offset - connp->in_current_receiver_offset;
     d.is_last = is_last;
 
-    htp_status_t rc = htp_hook_run_all(connp->in_data_receiver_hook, &d);
-    if (rc != HTP_OK) return rc;
-
+    // The data has been handed out, whatever the callbacks make of it: move on first, so
+    // that it is not sent again later, when the caller's chunk may be gone.
     connp->in_current_receiver_offset = connp->in_current_read_offset;
 
-    return HTP_OK;
+    return htp_hook_run_all(connp->in_data_receiver_hook, &d);
 }
 
 /**
